@@ -71,6 +71,12 @@ def build(rng, tier):
                   '/..%5Csecret.txt', '/..%5csecret.txt', '/%2E%2E/secret.txt', '/.%2E/secret.txt', '/%2e./secret.txt']:
             for entry in ('proc', 'preq', 'aexec', 'aexecl'):
                 cases.append(K.mk(tree, 'GET', t, entry=entry, kind='corpus'))
+        # every name of the tree itself (files, links at every depth with relative targets that climb back INTO the root, links that
+        # leave it): no `..` in the target at all - what is read is decided by how the server resolves the link
+        for n in tree.names:
+            for hs in ([], [('Range', 'bytes=0-')], [('Range', 'bytes=0-3')]):
+                for entry in ('proc', 'preq'):
+                    cases.append(K.mk(tree, 'GET', '/' + n.decode('utf-8', 'surrogateescape'), hs, entry=entry, kind='tree-name'))
         # the application handler called directly (no origin-form gate in front of it): targets WITHOUT a leading slash whose first
         # segments climb, with a file of the same relative name inside the root (so that a guard looking at another spelling passes)
         for inside in [n.decode('utf-8', 'surrogateescape') for n in tree.names[:4]] + ['secret.txt', 'index.html', 'sib0/secret.html']:
@@ -79,6 +85,24 @@ def build(rng, tier):
                     cases.append(K.mk(tree, 'GET', pre + inside, rng.choice([[], [('Range', 'bytes=0-')]]), entry=entry, kind='no-leading-slash'))
         batches.append((tree, cases))
     return batches
+
+def link_target(tree, target):
+    """when the path of `target` names a link of the tree (directly), the file that link points to by symlink(7): a relative
+    target is resolved against the directory the link lives in; path relative to the scratch base, or None"""
+    p = K.strip_qf(target)
+    rel = b'/'.join(K.norm_comps(p))
+    full = tree.cwd + b'/' + rel
+    t = tree.links.get(full)
+    if t is None: return None
+    stack = [] if t.startswith(b'/') else full.split(b'/')[:-1]
+    if t.startswith(b'/'): return None
+    for comp in t.split(b'/'):
+        if comp in (b'', b'.'): continue
+        if comp == b'..':
+            if not stack: return None
+            stack.pop()
+        else: stack.append(comp)
+    return b'/'.join(stack)
 
 def judge(res, results):
     for c, r, il, ml in results:
@@ -94,8 +118,10 @@ def judge(res, results):
         tb = c.target.encode('utf-8', 'surrogateescape')
         cl = K.climbs(tb)
         res.count(('climbing ' if cl else 'inside ') + c.entry)
+        allowed = link_target(c.tree, tb)      # the property's exception: what a link placed inside the root by its owner points to
         for p, content in c.tree.outside_root().items():
             mk = content[:23]
+            if p == allowed: continue
             if mk.startswith(b'SECRET-') and mk in emitted:
                 res.fail('outside-file-served', c.line[:300], emitted[:80].hex(), None,
                          f'C01: target {c.target!r} ({c.entry}) returned the content of {p!r}, which lies outside the served directory {c.tree.cwd!r}')
